@@ -204,9 +204,25 @@ def run_case(case, st=None):
             other = ms(g.query(t2), back)
             if other != base: return differ("variable-renaming", other, t2)
         elif rel == "spell":
-            t2 = spell(text, rng.randrange(3))
-            other = ms(g.query(t2))
-            if other != base: return differ("iri-spelling", other, t2)
+            v = rng.randrange(4)
+            if v < 3:
+                t2 = spell(text, v)
+                other = ms(g.query(t2))
+                if other != base: return differ("iri-spelling", other, t2)
+            else:
+                # local parts that need PN_LOCAL escapes: <urn:e:a> is renamed to an IRI with punctuation in data and query, then
+                # spelled as a prefixed name with every / some of the characters escaped
+                odd = "urn:e:a-b(c).d%41_"
+                ren = lambda t_: URIRef(odd) if t_ == URIRef("urn:e:a") else t_
+                g2 = build([tuple(ren(x) for x in t_) for t_ in triples])
+                text_full = text.replace("<urn:e:a>", "<%s>" % odd)
+                base2 = ms(g2.query(text_full))
+                local = rng.choice(["a\\-b\\(c\\)\\.d%41\\_", "a-b\\(c\\).d%41_", "a\\-b\\(c\\).d%41\\_"])
+                t2 = "PREFIX e: <urn:e:>\n" + text.replace("<urn:e:a>", "e:" + local)
+                other = ms(g2.query(t2))
+                st["escaped-local-name"] = st.get("escaped-local-name", 0) + 1
+                if other != base2:
+                    return ("iri-spelling", "%s\nvs. %s\nanswers differ: only with the IRI in full %s; only with the escaped prefixed name %s" % (text_full, t2, [sorted(m) for m in (base2 - other)][:3], [sorted(m) for m in (other - base2)][:3]))
         elif rel == "init":
             # a variable bound by the outermost BGP and mentioned nowhere else in a nested scope
             top_bgp_vars = set()
